@@ -1218,8 +1218,20 @@ func main() {
 	rec := crashfs.Install()
 	defer rec.Uninstall()
 	r := gen.FromEnv(3)
+	// C03_CASE_RANGE=a:b runs only the cases a <= i < b (the check splits the stream over parallel processes); every case
+	// keeps the input it has in a full run because the PRNG is forked for every index
+	lo, hi := 0, n
+	if rg := os.Getenv("C03_CASE_RANGE"); rg != "" {
+		if p := strings.SplitN(rg, ":", 2); len(p) == 2 {
+			lo, _ = strconv.Atoi(p[0])
+			hi, _ = strconv.Atoi(p[1])
+		}
+	}
 	for i := 0; i < n; i++ {
-		runCase(i, r.Fork(), work, rec, quick, func(in *Instance) { gen.Emit(in) })
+		rf := r.Fork()
+		if i >= lo && i < hi {
+			runCase(i, rf, work, rec, quick, func(in *Instance) { gen.Emit(in) })
+		}
 	}
 	// column-level cases (no crash images): their own stream of the same seed, so the cases above keep their inputs
 	ncol, nseg := 0, 0
